@@ -1,3 +1,4 @@
+import Varint.Lemmas.PackedSeq
 import Varint.Lemmas.Packed
 /-
   C09 — packed bit arrays: element isolation and sorted-array semantics.
@@ -110,6 +111,68 @@ theorem packed_lower_bound (S b : Nat) (ws : List Nat) (len v : Nat)
         subst this
         exact ⟨hhi, hlo, hup⟩
   exact key (len + 1) 0 len (by omega) (by omega) (by omega) (by intro k hk; omega) (by intro k h1 h2; omega)
+
+
+/-! ## sorted-array semantics: the shifting loops refine list operations on `elems` (the first `n`
+    elements read through `get`). `FitsN` = each of the n elements has its one or two slots;
+    `WordsOK` = every slot value is below 2^S (preserved by every operation). -/
+
+/-- positional insert = `List.insertIdx`; slot count unchanged; elements beyond and storage bits outside untouched -/
+theorem packed_insert_refines (S b : Nat) (hS : 0 < S) (hb : 1 ≤ b) (ws : List Nat) (len off v : Nat)
+    (hoff : off ≤ len) (hw : WordsOK S ws) (hf : FitsN S b ws (len + 1)) (hv : v < 2 ^ b) :
+    elems S b (insertAt S b ws len off v) (len + 1) = (elems S b ws len).insertIdx off v ∧
+    (insertAt S b ws len off v).length = ws.length ∧ WordsOK S (insertAt S b ws len off v) ∧
+    (∀ j, len < j → Span S b j → get S b (insertAt S b ws len off v) j = get S b ws j) ∧
+    (∀ p, (p < off * b ∨ (len + 1) * b ≤ p) →
+      (val S (insertAt S b ws len off v)).testBit p = (val S ws).testBit p) :=
+  ⟨elems_insertAt_insertIdx S b hS hb ws len off v hoff hw hf hv,
+   (insertAt_spec S b hS hb ws len off v hoff hw hf hv).1,
+   (insertAt_spec S b hS hb ws len off v hoff hw hf hv).2.1,
+   fun j hj hs => insertAt_beyond S b hS hb ws len off v hoff hw hf hv j hj hs,
+   fun p hp => insertAt_bits_outside S b hS hb ws len off v hoff hw hf hv p hp⟩
+
+/-- positional delete = `List.eraseIdx` -/
+theorem packed_delete_refines (S b : Nat) (hS : 0 < S) (hb : 1 ≤ b) (ws : List Nat) (len off : Nat)
+    (hoff : off < len) (hw : WordsOK S ws) (hf : FitsN S b ws len) :
+    elems S b (deleteAt S b ws len off) (len - 1) = (elems S b ws len).eraseIdx off ∧
+    (deleteAt S b ws len off).length = ws.length ∧ WordsOK S (deleteAt S b ws len off) ∧
+    (∀ p, (p < off * b ∨ (len - 1) * b ≤ p) →
+      (val S (deleteAt S b ws len off)).testBit p = (val S ws).testBit p) :=
+  ⟨elems_deleteAt S b hS hb ws len off hoff hw hf,
+   (deleteAt_spec S b hS hb ws len off hoff hw hf).1,
+   (deleteAt_spec S b hS hb ws len off hoff hw hf).2.1,
+   fun p hp => deleteAt_bits_outside S b hS hb ws len off hoff hw hf p hp⟩
+
+/-- sorted insert keeps the array sorted and adds exactly one copy of v (a permutation of v :: old) -/
+theorem packed_insert_sorted (S b : Nat) (hS : 0 < S) (hb : 1 ≤ b) (ws : List Nat) (len v : Nat)
+    (hw : WordsOK S ws) (hf : FitsN S b ws (len + 1)) (hv : v < 2 ^ b)
+    (hsorted : (elems S b ws len).Pairwise (· ≤ ·)) :
+    (elems S b (insertSorted S b ws len v) (len + 1)).Pairwise (· ≤ ·) ∧
+    (elems S b (insertSorted S b ws len v) (len + 1)).Perm (v :: elems S b ws len) :=
+  insertSorted_sorted_perm S b hS hb ws len v hw hf hv hsorted
+
+/-- membership on a sorted array: found ⇔ present, and the index is the FIRST equal element -/
+theorem packed_member_spec (S b : Nat) (ws : List Nat) (len v : Nat)
+    (hsorted : (elems S b ws len).Pairwise (· ≤ ·)) :
+    (member S b ws len v ≥ 0 ↔ v ∈ elems S b ws len) ∧
+    (member S b ws len v ≥ 0 → ∃ m : Nat, member S b ws len v = (m : Int) ∧ m < len ∧ get S b ws m = v ∧
+      ∀ k, k < m → get S b ws k ≠ v) ∧
+    (v ∉ elems S b ws len → member S b ws len v = -1) :=
+  ⟨member_nonneg_iff S b ws len v hsorted, member_first S b ws len v hsorted,
+   member_neg_of_not_mem S b ws len v hsorted⟩
+
+/-- delete-member removes the first occurrence and keeps the rest sorted; absent ⇒ untouched, false -/
+theorem packed_delete_member (S b : Nat) (hS : 0 < S) (hb : 1 ≤ b) (ws : List Nat) (len v : Nat)
+    (hw : WordsOK S ws) (hf : FitsN S b ws len) (hsorted : (elems S b ws len).Pairwise (· ≤ ·)) :
+    (v ∈ elems S b ws len →
+      (deleteMember S b ws len v).2 = true ∧
+      elems S b (deleteMember S b ws len v).1 (len - 1) = (elems S b ws len).erase v ∧
+      (elems S b (deleteMember S b ws len v).1 (len - 1)).Pairwise (· ≤ ·)) ∧
+    (v ∉ elems S b ws len → deleteMember S b ws len v = (ws, false)) :=
+  ⟨fun hm => let h := deleteMember_mem S b hS hb ws len v hw hf hsorted hm; ⟨h.1, h.2.2.2.1, h.2.2.2.2⟩,
+   fun hm => deleteMember_not_mem S b ws len v hsorted hm⟩
+
+example : elems 8 12 (insertSorted 8 12 [33, 225, 61, 188, 250, 255] 3 0x200) 4 = [0x121, 0x200, 0x3de, 0xabc] := by decide
 
 /-- non-vacuity: the tree's own configuration (12-bit values in uint8_t slots), an element crossing slots -/
 example : Fits 8 12 1 [0, 0, 0] := by unfold Fits; decide
